@@ -10,4 +10,4 @@ INVARIANT Inv_C10
 INVARIANT Inv_Once
 INVARIANT Inv_SourceIndependent
 PROPERTY Prop_C09_Monotone
-CHECK_DEADLOCK FALSE
+CHECK_DEADLOCK TRUE
